@@ -23,8 +23,9 @@ DAMAGES = ["torn", "garbage", "nonutf8", "empty", "bad-constraint", "missing-key
 
 
 def generate(rng, tier, idx):
-    root = "/sim/c"
-    ops = []
+    root = pick(rng, ["/sim/c", "/sim/c", "/sim/compose[1]", "/sim/F-22-updates[testing]-20150522.2", "/sim/with space", "/sim/st*r?",
+                      "/sim/ünï", "/sim/deep/er/c", "/sim/.hidden"])
+    ops = [{"op": "cd_mkdir", "path": root}]
     tag = [0]
 
     def put(base, attr, which, dmg=None):
@@ -35,7 +36,7 @@ def generate(rng, tier, idx):
     layouts = subset(rng, ["direct", "compose", "legacy"], 1, 3)
     if rng.random() < 0.5:
         layouts = [pick(rng, ["direct", "compose", "legacy"])]
-    legacy_name = pick(rng, ["7.0", "1.0", "6.5", "Server"])
+    legacy_name = pick(rng, ["7.0", "1.0", "6.5", "Server", ".1", "1.0 beta", "[x]"])
     bases = {"direct": root, "compose": root + "/compose", "legacy": root + "/" + legacy_name}
     for lay in layouts:
         base = bases[lay]
